@@ -45,7 +45,8 @@ func init() {
 }
 
 type env struct {
-	release func() // lets a held merger go on (must happen before Close is asked to wait for it)
+	copies  atomic.Int32 // one destination directory per backup
+	release func()       // lets a held merger go on (must happen before Close is asked to wait for it)
 	c       *drv.Ctx
 	engine  string
 	kids    []bleve.Index // alias engine: the children (kids[2] is a spare, not a member at the start)
@@ -181,7 +182,7 @@ var ops = []op{
 		if !ok {
 			return "CopyTo:n/a"
 		}
-		err := ic.CopyTo(bleve.FileSystemDirectory(e.c.Dir + "/copy"))
+		err := ic.CopyTo(bleve.FileSystemDirectory(fmt.Sprintf("%s/copy%d", e.c.Dir, e.copies.Add(1))))
 		if err != nil && strings.Contains(err.Error(), "unsupported") {
 			return "CopyTo:n/a"
 		}
@@ -385,6 +386,7 @@ func Scenarios() []drv.Scenario {
 		"index+search+close": true, "batch+forcemerge+close": true, "search-cancel+cancel+close": true,
 		"fielddict+delete+close": true, "copyto+batch+close": true, "index+close+close": true,
 		"search-cancel+cancel+index": true, "document+doccount+close": true,
+		"copyto+copyto+close": true, // two backups at once (they share scorch's copy bookkeeping)
 	}
 	base := []string{"index", "delete", "batch", "search", "document", "doccount", "fielddict", "stats", "forcemerge", "copyto"}
 	seen := map[string]bool{}
@@ -394,12 +396,12 @@ func Scenarios() []drv.Scenario {
 			return
 		}
 		seen[engine+k] = true
-		add(engine, quickSet[k], names...)
+		add(engine, engine == "scorch" && quickSet[k], names...)
 	}
 	for k := range quickSet { // quick ones first (stable order below)
 		_ = k
 	}
-	for _, k := range []string{"index+search+close", "batch+forcemerge+close", "search-cancel+cancel+close", "fielddict+delete+close", "copyto+batch+close", "index+close+close", "search-cancel+cancel+index", "document+doccount+close"} {
+	for _, k := range []string{"index+search+close", "batch+forcemerge+close", "search-cancel+cancel+close", "fielddict+delete+close", "copyto+batch+close", "index+close+close", "search-cancel+cancel+index", "document+doccount+close", "copyto+copyto+close"} {
 		mk("scorch", strings.Split(k, "+")...)
 	}
 	mk("upsidedown", "index", "search", "close")
